@@ -16,7 +16,7 @@ RULE = (
     "FractionScalar (number only, and number+fraction for scale-only pairs); all of < <= > >= in both operand "
     "orders must equal the comparison of the two base amounts (UnitModel), never a>b and b>a, always a<=b or b<=a. "
     "Generated cross-type pairs (simple and derived) must raise TypeError for the four order operators. "
-    "(b) equality: Hypothesis-generated pools of 4..9 objects out of Quantity (simple/derived/empty/unknown), "
+    "(b) equality: Hypothesis-generated pools of 4..9 objects out of Quantity (simple/derived/empty/unknown, built by the constructor, a known unit given a caption), "
     "Scalar, Array and FixedArray (list/tuple/ndarray of dtype float64, float32, int32, object; lengths 0..4), FractionScalar, FractionValue, Fraction, "
     "Curve, UnitSystem and unrelated objects (None, str, int, float, tuple, list, dict, object()), drawn from small "
     "alphabets so that equal twins occur; for every ordered pair ==/!= never raise, a==a, (a==b)==(b==a), "
@@ -277,6 +277,9 @@ def build(spec):
         form = spec[1]
         if form == "simple":
             return ObtainQuantity(spec[2], spec[3])
+        if form == "captioned":
+            # a caption may be given for a known unit too (it only shows for unknown ones)
+            return ObtainQuantity(spec[2], spec[3], spec[4])
         if form == "ctor":
             return Quantity(spec[3], spec[2])  # a fresh, uncached object equal to the cached one
         if form == "empty":
@@ -316,7 +319,8 @@ def spec_strategy():
     qempty = st.just(("quantity", "empty"))
     qunknown = st.sampled_from(["", "foo", "m"]).map(lambda c: ("quantity", "unknown", c))
     qctor = unit_cat.map(lambda uc: ("quantity", "ctor", uc[0], uc[1]))
-    quantity = st.one_of(qsimple, qsimple, qctor, qderived, qempty, qunknown)
+    qcaptioned = st.tuples(unit_cat, st.sampled_from(["Measured Depth", "foo", ""])).map(lambda t: ("quantity", "captioned", t[0][0], t[0][1], t[1]))
+    quantity = st.one_of(qsimple, qsimple, qctor, qderived, qempty, qunknown, qcaptioned)
     kinds = st.sampled_from(["list", "tuple", "ndarray", "ndarray", "ndarray_object", "ndarray_f32", "ndarray_i32"])
     values = st.lists(val, min_size=0, max_size=4)
     values2 = st.lists(val, min_size=2, max_size=4)
